@@ -944,6 +944,7 @@ class _Run:
                 continue
             if uses_cache:
                 self.cache_state = "warm" if not self.poisoned else "poisoned"
+                self._note_entries()
             diffs = []
             for name, want in expected.items():
                 g = res["root"].get(name)
